@@ -1,6 +1,14 @@
 """Texts with every comment kind of each language, incl. those Pygments types as bare Token.Comment ('#if 0' regions,
 '<!--') and preprocessor continuations."""
 
+# identifiers that are not in Unicode normal form C (letter + combining mark, ANGSTROM SIGN, OHM SIGN) and tokens that span
+# lines without being whitespace, comments or strings (a C# attribute list is one Name.Attribute token to Pygments)
+EVERY_LANGUAGE = [
+    "cafe\u0301 = 1\nx = cafe\u0301 + 2\n",
+    "int \u212bngstrom = 1; // \u2126\nint \u2126hm = \u212bngstrom;\n",
+    "e\u0301\u0302(a\u030a) { n\u0303 }\n",
+]
+
 TEMPLATES = {
     "c": [
         "#if 0\nint dead(void) {\n}\n#endif\nint live;\n",
@@ -13,6 +21,8 @@ TEMPLATES = {
         "// a\n/* b */ auto x = R\"(raw\nstring)\";\n",
     ],
     "csharp": [
+        "class A {\n  [DllImport(\"x\",\n     CharSet = CharSet.Auto)]\n  static extern void F(int a);\n  [Obsolete]\n  void G() { }\n}\n",
+        "[assembly: Foo(1,\n  2,\n  3)]\nclass B { int x; }\n",
         "#region R\nint x; // c\n#endregion\n/// <summary>doc</summary>\nclass A { }\n",
         "#if DEBUG\nint d;\n#endif\n",
     ],
